@@ -84,7 +84,7 @@ Proof. intros. apply unescape_escape. assumption. Qed.
 (* deleted scripts and styles are inert in the combined view (shared with C09) *)
 Theorem C14_deleted_active_elements_inert : forall old new ops ic dc body,
   let v := view_doc KCombined old new ops ic dc body in
-  forallb (inert_ok false false) (d_body v) = true /\ forallb (inert_ok false false) (d_head v) = true.
+  forallb (inert_ok false false false) (d_body v) = true /\ forallb (inert_ok false false false) (d_head v) = true.
 Proof. exact combined_view_inert. Qed.
 
 (* the chrome text comes from the regenerated tables *)
